@@ -23,7 +23,7 @@ def run(ctx):
         "PARTIAL (the file-system layer above the log is tied by oracle, not by theorem). Lean theorems on the write-ahead-log model M9: for every interleaving of logger and "
         "installer steps taken under their guards, every crash state (per disk cell the durable content or any pending write) and any number of further crashes during recovery, the "
         "recovered logical disk is the specification after a prefix of the logged updates that contains every durable group commit (wal_crash_safe, acknowledged_survives, "
-        "wal_recover_idempotent, recovered_is_prefix_state). Ties: the disk trace RECORDED from real runs is mapped onto the model's steps and every guard checked (driver wal); "
+        "wal_recover_idempotent, recovered_is_prefix_state); on the in-memory log model (transactions appended whole, absorbed into the unflushed tail, flush points) every header-1 end value is a transaction boundary below which nothing changes any more, so the recovered disk holds ALL transactions before that flush and NONE after it (group_is_txn_prefix, crash_recovers_whole_transactions). Ties: the disk trace RECORDED from real runs is mapped onto the model's steps and every guard checked (driver wal); "
         "crash images built from the same trace are recovered by the REAL server and the whole recovered tree (names, kinds, sizes, content digests, link targets) must equal the "
         "reference state after k operations, with every stable-acknowledged visible operation among the k; the recovered server must keep serving",
         "workloads of all mutating procedures (namespace-heavy and write-stability mixes; all three stability levels; multi-block writes; truncations; removal of 3 MB files freed in the "
@@ -32,6 +32,5 @@ def run(ctx):
         ["go-journal (wal, obj, jrnl, buf, lockmap, alloc) is a dependency outside /repo: its WAL protocol is MODELLED (M9) and tied by the recorded-trace check, not verified",
          "the disk model: a barrier makes all earlier writes durable; a crash keeps durable writes and any subset of later ones; block writes are atomic",
          "the file-system layer (one journal transaction per RPC, bitmaps in the same transaction, recovery before any read) is tied by the crash-image oracle on sampled workloads"],
-        pending=["group_is_txn_prefix: a theorem that a prefix of updates ending at a header-1 value is a prefix of whole transactions (memLog append model)",
-                 ],
+        pending=[],
         partial=["file-system layer above the journal: oracle on sampled workloads and crash points, not a theorem"])
